@@ -98,6 +98,7 @@ type vWorld struct {
 	sharedExpID  int            // exporter id built on sharedcomponent (0 = none); inner label u<id>
 	sharedConnID int            // connector id built on sharedcomponent (0 = none); inner label w<id>
 	sharedMap    *sharedcomponent.Map[int, *vInner]
+	sink         *vSink   // where the inner components of this process log: the current lifetime
 	inners       []string // created inner labels s<id>
 	log          []vEv
 	failStart    map[string]bool
@@ -113,6 +114,12 @@ type vWorld struct {
 }
 
 func newVWorld() *vWorld {
+	w := newVWorld0()
+	w.sink = &vSink{w: w}
+	return w
+}
+
+func newVWorld0() *vWorld {
 	return &vWorld{creates: map[string]int{}, procTok: map[int]string{}, extDeps: map[int][]int{},
 		sharedMap: sharedcomponent.NewMap[int, *vInner](), failStart: map[string]bool{}, failStop: map[string]bool{},
 		failNotify: map[string]bool{}, failReady: map[string]bool{}, failCreate: map[string]bool{}}
@@ -245,19 +252,45 @@ var _ extensioncapabilities.Dependent = (*vExt)(nil)
 func (e *vExt) Dependencies() []component.ID { return e.deps }
 
 // vInner: the component shared by all signal instances of the shared receiver id.
+//
+// The sharedcomponent.Map may outlive one service (the otlp receiver's factory keeps its map for the life of the process): the
+// inner component therefore does not belong to one world, it logs into whatever world (= service lifetime) is current.
 type vInner struct {
-	w     *vWorld
+	sink  *vSink
 	label string
 }
 
+// vSink: the world of the service lifetime that is running now
+type vSink struct{ w *vWorld }
+
 func (n *vInner) Start(context.Context, component.Host) error {
-	i := n.w.begin("istart", n.label)
-	return n.w.done(i, n.w.startErr(n.label))
+	w := n.sink.w
+	i := w.begin("istart", n.label)
+	return w.done(i, w.startErr(n.label))
 }
 
 func (n *vInner) Shutdown(context.Context) error {
-	i := n.w.begin("istop", n.label)
-	return n.w.done(i, n.w.stopErr(n.label))
+	w := n.sink.w
+	i := w.begin("istop", n.label)
+	return w.done(i, w.stopErr(n.label))
+}
+
+// nextLifetime: a fresh world for the next service built in the same process: same (persistent) sharedcomponent.Map
+func (w *vWorld) nextLifetime() *vWorld {
+	n := newVWorld()
+	n.sharedMap = w.sharedMap
+	n.sink = w.sink
+	n.sink.w = n
+	return n
+}
+
+func (w *vWorld) noteInner(label string) {
+	for _, x := range w.inners {
+		if x == label {
+			return
+		}
+	}
+	w.inners = append(w.inners, label)
 }
 
 // vOuter: one signal instance of the shared receiver; delegates to the sharedcomponent wrapper.
@@ -299,13 +332,12 @@ type vAll interface {
 func (w *vWorld) sharedOuter(kind, num int, key string) vAll {
 	prefix := map[int]string{1: "u", 2: "w"}[kind]
 	sh, err := w.sharedMap.LoadOrStore(kind*1000+num, func() (*vInner, error) {
-		in := &vInner{w: w, label: fmt.Sprintf("%s%d", prefix, num)}
-		w.inners = append(w.inners, in.label)
-		return in, nil
+		return &vInner{sink: w.sink, label: fmt.Sprintf("%s%d", prefix, num)}, nil
 	})
 	if err != nil {
 		panic(err)
 	}
+	w.noteInner(fmt.Sprintf("%s%d", prefix, num))
 	return &vOuter{w: w, label: key, shared: sh}
 }
 
@@ -317,13 +349,12 @@ func (w *vWorld) mkRecv(id component.ID, sig int) (component.Component, error) {
 	w.created('r', key)
 	if num == w.sharedID {
 		sh, err := w.sharedMap.LoadOrStore(num, func() (*vInner, error) {
-			in := &vInner{w: w, label: fmt.Sprintf("s%d", num)}
-			w.inners = append(w.inners, in.label)
-			return in, nil
+			return &vInner{sink: w.sink, label: fmt.Sprintf("s%d", num)}, nil
 		})
 		if err != nil {
 			return nil, err
 		}
+		w.noteInner(fmt.Sprintf("s%d", num))
 		w.creates[key]++
 		return &vOuter{w: w, label: key, shared: sh}, nil
 	}
